@@ -22,7 +22,11 @@ var c02Alphabet = []string{
 	"X:M3-wrong-code", "X:M5-wrong-code-S", "X:M5-hkdf-empty-S", "X:M3-A-N", "X:M3-A-2N", "X:M3-no-proof", "X:M3-no-A",
 	"X:M3-replay-L", "X:M5-random-key", "X:M5-replay-L", "X:M5-len0", "X:M5-len15", "X:M5-tag-flipped",
 	"X:M1-method1", "X:state-0", "X:state-7", "X:reopen", "L:reopen",
+	"X:M3-A-zero-proof-for-empty-key", "L2:M5-of-L",
 }
+
+// c02Deep is the adversary-only alphabet of the deep exploration around rejected SRP public keys.
+var c02Deep = []string{"X:M1", "X:M3-A-zero", "X:M3-A-zero-proof-for-empty-key", "X:M5-zero-key", "X:M5-hkdf-empty-S", "X:M3-A-N"}
 
 type c02Conn struct {
 	k     *refctl.Ctl
@@ -191,6 +195,27 @@ func (r *c02Run) step(ev string) bool {
 		m, err = post(refctl.TLVEncode(refctl.T(refctl.TagState, []byte{3}), refctl.T(refctl.TagPublicKey, cl.A), refctl.T(refctl.TagProof, cl.M1)))
 	case "M3-A-zero":
 		m, err = post(refctl.TLVEncode(refctl.T(refctl.TagState, []byte{3}), refctl.T(refctl.TagPublicKey, []byte{0}), refctl.T(refctl.TagProof, pat(64, 5))))
+	case "M3-A-zero-proof-for-empty-key":
+		// A = 0 together with the proof a server would expect if it went on with an empty premaster secret and an
+		// empty session key: every input of that proof is public
+		cl := &refctl.SRPClient{}
+		m, err = post(refctl.TLVEncode(refctl.T(refctl.TagState, []byte{3}), refctl.T(refctl.TagPublicKey, []byte{0}), refctl.T(refctl.TagProof, cl.ProofFor(ctx.Salt, nil, ctx.B, nil))))
+	case "M5-of-L":
+		// the legitimate controller's genuine key-exchange message of its current exchange, delivered on ANOTHER
+		// connection (L2): the proof was not given on that connection, nothing may be stored
+		l := r.conns["L"]
+		var body []byte
+		if l != nil && l.setup != nil && l.setup.SRP != nil && l.setup.EncKey != nil {
+			body = l.setup.M5(idL)
+		} else {
+			body = refctl.M5Sealed(refctl.Seed32("no-key"), refctl.M5Sub(nil, idL))
+		}
+		m, err = post(body)
+		if cls, isErr, t := c02Class(m, err); !isErr && len(t[refctl.TagEncrypted]) > 0 {
+			r.c.Class(op + "→" + cls)
+			r.fail("M6-on-foreign-connection", "L's key-exchange message sent on a connection that never proved the setup code was answered with an M6")
+			return false
+		}
 	case "M3-A-N":
 		m, err = post(refctl.TLVEncode(refctl.T(refctl.TagState, []byte{3}), refctl.T(refctl.TagPublicKey, nHex.Bytes()), refctl.T(refctl.TagProof, pat(64, 5))))
 	case "M3-A-2N":
@@ -331,9 +356,27 @@ func c02Exec(c *fw.Ctx, hist []string) bool {
 func c02Run1(c *fw.Ctx) {
 	depth := 3
 	n := 19
+	alpha := append(append([]string{}, c02Alphabet[:19]...), c02Alphabet[len(c02Alphabet)-2:]...)
 	if c.Thorough() {
-		depth, n = 4, len(c02Alphabet)
+		depth, alpha = 4, c02Alphabet
 	}
+	n = len(alpha)
+	// deep adversary-only tree (cheap: no successful SRP exchange in it)
+	dd := 5
+	if c.Thorough() {
+		dd = 7
+	}
+	exploreTree(c, len(c02Deep), dd, func(h []int) bool {
+		if len(h) < dd {
+			return false
+		}
+		var hist []string
+		for _, s := range h {
+			hist = append(hist, c02Deep[s])
+		}
+		c02Exec(c, hist)
+		return false
+	})
 	sampled := 0
 	// only complete histories of maximal length are new work: the oracle runs after every event, so every
 	// prefix is judged inside its extensions; leaves are what we execute, plus nothing is lost by skipping inner nodes
@@ -343,7 +386,7 @@ func c02Run1(c *fw.Ctx) {
 		}
 		var hist []string
 		for _, s := range h {
-			hist = append(hist, c02Alphabet[s])
+			hist = append(hist, alpha[s])
 		}
 		if sampled < 2 {
 			c.Sample(hist)
@@ -358,7 +401,7 @@ func init() {
 	fw.Register(&fw.Check{
 		ID:    "C02",
 		Level: "model_checking",
-		Rule:  "every history of length 3 (quick, 19 symbols) / 4 (thorough, 24 symbols) over the pair-setup alphabet on a legitimate connection L (knows the code) and an adversary connection X (sees all bytes, owns its keys, does not know the code): start; verify with right code, wrong code, A = 0 / N / 2N, proof missing, A missing, L's verify replayed; key-exchange genuine, sealed under the all-zero key / HKDF of an empty secret / the wrong-code secret / a random key, 0- and 15-byte payloads, tag flipped, L's key-exchange replayed; unknown method and states; reopen. Real transport over TCP with real SRP; a fresh system per history; after EVERY event the stored pairings (read through the database) must equal the model: the accessory's own entity plus exactly (L's id, L's key) iff L completed start → right-code verify → genuine key-exchange consecutively on its connection; proofs and M6 payloads must appear only when the model allows. states = histories executed (each judges all its prefixes), distinct_nontrivial = distinct (event → response class) pairs",
+		Rule:  "every history of length 3 (quick, 21 symbols) / 4 (thorough, 26 symbols), plus every adversary-only history of length 5 (quick) / 7 (thorough) over 6 symbols around rejected SRP public keys, over the pair-setup alphabet on a legitimate connection L (knows the code) and an adversary connection X (sees all bytes, owns its keys, does not know the code): start; verify with right code, wrong code, A = 0 / N / 2N, proof missing, A missing, L's verify replayed, A = 0 with the proof for an empty session key; key-exchange genuine, L's genuine key-exchange delivered on another connection, sealed under the all-zero key / HKDF of an empty secret / the wrong-code secret / a random key, 0- and 15-byte payloads, tag flipped, L's key-exchange replayed; unknown method and states; reopen. Real transport over TCP with real SRP; a fresh system per history; after EVERY event the stored pairings (read through the database) must equal the model: the accessory's own entity plus exactly (L's id, L's key) iff L completed start → right-code verify → genuine key-exchange consecutively on its connection; proofs and M6 payloads must appear only when the model allows. states = histories executed (each judges all its prefixes), distinct_nontrivial = distinct (event → response class) pairs",
 		Run:   c02Run1,
 		Replay: func(c *fw.Ctx, raw json.RawMessage) {
 			var cas c02Case
